@@ -326,10 +326,14 @@ pub fn c14(opts: &Opts, out: &mut Out) {
     // component of any opening) changes the key of every instance
     {
         let keys_of = |inst: &Inst| -> Option<Vec<Vec<u8>>> { observe(inst, &RngKind::Zero).map(|o| o.instances.iter().map(|i| i.3.clone()).collect()) };
-        for (n, m, t) in [(4usize, 2usize, 3usize), (8, 1, 6), (2, 4, 1)] {
+        // (the large aggregates make the serialised witness longer than 16 KiB, 32 KiB: a bounded or chunked key
+        // buffer must still take in the last opening)
+        let big: Vec<(usize, usize, usize)> = if opts.thorough { vec![(1, 512, 1), (1, 128, 4), (1, 256, 2), (1, 256, 6), (1, 1024, 1)] } else { vec![(1, 512, 1), (1, 128, 4), (1, 256, 2)] };
+        for (n, m, t) in [(4usize, 2usize, 3usize), (8, 1, 6), (2, 4, 1)].into_iter().chain(big.into_iter()) {
             let inst = fmrun::random_inst(n, m, m, t, 4, false, &mut rng);
             let Some(k0) = keys_of(&inst) else { continue };
-            for j in 0..m {
+            let js: Vec<usize> = if m <= 8 { (0..m).collect() } else { vec![0, 1, m / 2, m - 9, m - 2, m - 1] };
+            for j in js {
                 for c in 0..=t {
                     let mut i2 = inst.clone();
                     if c == t {
